@@ -160,7 +160,8 @@ PINNED = os.path.join(LEAN, "pinned_gen")
 GEN_FILES = {"cont.": "Cont.lean", "cmp.": "Cmp.lean", "det.": "Det.lean", "clean.": "Clean.lean",
              "opt": "OptionTable.lean", "appearance.": "Appearance.lean", "prob.": "Prob.lean",
              "dispatch.": "ClassTable.lean", "wiring.": "PlotWiring.lean",
-             "axis.": "Axis.lean"}
+             "axis.": "Axis.lean", "abcd.": "Abcd.lean",
+             "subset.": "Subset.lean", "brier.": "Brier.lean", "texthdr.": "TextHeader.lean"}
 
 
 def gen_files_for(prefixes):
